@@ -38,7 +38,9 @@ RULE = ("per component (standard DHT, dual DHT, accelerated client, provider man
         "step between two released calls (or after all operations), a second Close after the first returned or concurrently with it, calls "
         "on the closed instance, final drain; one case in 3-12 forces a constructor failure point (failing option, Amino prefix with a wrong "
         "bucket size, invalid mode, failing event-bus subscription, failing provider-manager option, failing datastore read/write/factory, "
-        "second DHT / second provider failing, no BootstrapPeers option). Observed: Close returned, second Close returned, no panic, "
+        "second DHT / second provider failing, no BootstrapPeers option); one provider case in 6 stages a timer-driven reprovide that cannot get a "
+        "worker before Close (every worker dedicated to burst jobs and the schedule timer fired; or one worker, the first scheduled reprovide "
+        "parked in a slow lookup and the next one queued in Acquire). Observed: Close returned, second Close returned, no panic, "
         "operations returned, goroutines of repository code alive at the first quiescent point after each Close return (mapped through the "
         "regenerated inventory to the model's classes), nothing left when the synctest bubble ends, event-bus subscriptions closed. "
         "distinct = distinct (component, options, constructor point, instant class of Close, second-Close mode, result multiset)")
@@ -48,7 +50,9 @@ TRUSTED = [
     "harness/c14lib: gates (every datastore / router / message-sender / host call parks until released), the in-memory datastore, the fake host "
     "and event bus, the real-time polling used where a component waits on a sync.Mutex (not a durable block for synctest), runtime.Stack parsing "
     "to list the goroutines of the current bubble with their creation site",
-    "go2coq/goroutines.go prints the `go` / WaitGroup.Go sites the AST contains (60 sites in 12 package directories)",
+    "go2coq/goroutines.go prints the `go` / WaitGroup.Go sites the AST contains (60 sites in 12 package directories), the registration guard and "
+    "the Done-on-every-path analysis (syntactic: defer X.Done() before any return, final unconditional X.Done(), callees of the same directory; "
+    "panics are not paths; anything else aborts the generator)",
 ]
 ASSUMPTIONS = [
     "goroutine, channel, context, timer and sync semantics are Go's (not modelled): the theorems are about the protocol each component uses",
@@ -65,7 +69,9 @@ LEVEL_TEXT = ("PARTIAL. Proved for all interleavings: Close returns only when no
               "Close calls return without panic once the first has; the lock+flag guard of the provider and of the refresh manager admits no "
               "registration after the flag; every constructor error point of all eleven constructors stops what was "
               "started; every start site of the regenerated inventory is mapped to a class that Close awaits, that its caller joins, or that ends "
-              "by itself. The check found five defects, all repaired in /repo and now stated positively (keystore Close under a concurrent second "
+              "by itself, and every goroutine registered by an explicit WaitGroup.Add reaches the Done calls it owes on every path of its body "
+              "(computed by go2coq; the theorem that Close returns has this as its hypothesis, and a goroutine that loses its Done makes every "
+              "later Close hang). The check found five defects, all repaired in /repo and now stated positively (keystore Close under a concurrent second "
               "call, the refresh manager's unguarded WaitGroup registration, provider/dual.New and fullrt.NewFullRT error / panic paths, the reset "
               "handshake that wedged the resettable keystore); the two abandoned protocols are kept as theorems about why they were insufficient.")
 LEVEL_NOTE = ("The theorems are about Gallina models of the Close protocols; that the Go code follows them is checked by exploration only "
